@@ -127,5 +127,5 @@ def required_labels(tier):
 
 
 def phases(tier, seed):
-    n = 25600 if tier == 'quick' else 96000
+    n = 25600 if tier == 'quick' else 600000
     return [Search('cases', gens.make_cases(big=0.05 if tier == 'quick' else 0.15), n)]
